@@ -472,6 +472,12 @@ Fixpoint run (cfg : lcfg) (ex : bool) (ops : list op) : bool * list (list lrec) 
       (exf, out :: outs)
   end.
 
+(** Other public routes into `do_enter` / `do_exit`: `Span::in_scope`, polling an `Instrumented` future (tracing's and
+    tracing-futures'), dropping one (the span is entered around the inner value's drop, then dropped itself). *)
+Definition in_scope_ops (s : span) : list op := [OpEnter s; OpExit s].
+Definition poll_ops (s : span) : list op := if gen_instrumented_poll_enters then [OpEnter s; OpExit s] else [].
+Definition idrop_ops (s : span) : list op := (if gen_instrumented_drop_enters then [OpEnter s; OpExit s] else []) ++ [OpDrop s].
+
 (** ** The flag `has_been_set()` reads, on any number of threads, at the granularity of single atomic actions.
     Everything here interprets generated data: the expression `has_been_set()` evaluates and the action lists of
     `State::set_default` (= `dispatch::set_default`), `Drop for DefaultGuard` and `set_global_default`.
